@@ -166,7 +166,13 @@ def _randrange(ip, a, kw, node):
     return ZI(d)
 
 
-R.EXTERNALS["random.randrange"] = R.ExtFn(_randrange)
+def _program_randrange(ip, a, kw, node):
+    """The module-level random.randrange draws from the *program's* generator: consuming its state changes what a seeded program computes (C03 / C18)."""
+    ip.effect("program-rng", z3.BoolVal(False), node)
+    return _randrange(ip, a, kw, node)
+
+
+R.EXTERNALS["random.randrange"] = R.ExtFn(_program_randrange)
 
 
 def _filter_call(ip, r, a, kw, node):
@@ -337,3 +343,9 @@ from theories import types as _TYe
 _TYe.ISINSTANCE["monkeytype.tracing:CallTracer"] = lambda ip, o: is_call_tracer(as_v(o))
 R.TAG_ALIAS = getattr(R, "TAG_ALIAS", {})
 R.TAG_ALIAS["Profiler"] = "Tracer"
+
+# the tracer's private random generator (random.Random()): its draws are the ghost sampling draws; nothing of the program's own random state is touched
+declare_always_truthy("Rng")
+R.EXTERNALS["random.Random"] = R.ExtFn(lambda ip, a, kw, node: (lambda g: (ip.st.assume(g != L.NONE), ZV(g, "Rng"))[1])(L.fresh("private_rng")))
+R.add_field({"Tracer"}, "_random", "Rng", "Tracer._random")
+R.METHODS[("Rng", "randrange")] = lambda ip, r, a, kw, node: _randrange(ip, a, kw, node)
